@@ -47,10 +47,15 @@ theorem APort.sexp_clean (p : APort) (h : p.name.okB = true) : p.sexp.clean := b
 
 theorem AInst.sexp_clean (i : AInst) (hn : i.name.okB = true) (h1 : checkEdifIdentifier i.viewSp = true)
     (h2 : checkEdifIdentifier i.cellSp = true) (h3 : checkEdifIdentifier i.libSp = true)
-    (hp : ∀ p ∈ i.props, p.okB = true) : i.sexp.clean :=
-  clean_list _ ⟨by kw, i.name.sexp_clean hn,
-    clean_list _ ⟨by kw, clean_ident _ h1, clean_list _ ⟨by kw, clean_ident _ h2,
-      clean_list _ ⟨by kw, clean_ident _ h3, trivial⟩, trivial⟩, trivial⟩,
+    (hp : ∀ p ∈ i.props, p.okB = true) : i.sexp.clean := by
+  have hcr : i.cellRefSexp.clean := by
+    unfold AInst.cellRefSexp
+    cases i.libOmit with
+    | false =>
+      exact clean_list _ ⟨by kw, clean_ident _ h2, clean_list _ ⟨by kw, clean_ident _ h3, trivial⟩, trivial⟩
+    | true => exact clean_list _ ⟨by kw, clean_ident _ h2, trivial⟩
+  exact clean_list _ ⟨by kw, i.name.sexp_clean hn,
+    clean_list _ ⟨by kw, clean_ident _ h1, hcr, trivial⟩,
     cleanL_map _ _ (fun p hpm => p.sexp_clean (hp p hpm))⟩
 
 /-- the spellings a pin reference uses are legal identifiers -/
@@ -121,17 +126,22 @@ theorem ACell.sexp_clean (d : ADesign) (L D : Nat) (c : ACell) (hn : c.name.okB 
     have := h.nets
     simp only [netsOKB, Bool.and_eq_true, List.all_eq_true] at this
     exact this.1.1.1
-  refine clean_list _ ⟨by kw, c.name.sexp_clean hn, clean_list _ ⟨by kw, by kw, trivial⟩,
-    clean_list _ ⟨by kw, clean_ident _ h.view, clean_list _ ⟨by kw, by kw, trivial⟩,
-      clean_list _ ⟨by kw, cleanL_map _ _ ?_⟩, clean_list _ ⟨by kw, cleanL_append _ _ (cleanL_map _ _ ?_) (cleanL_map _ _ ?_)⟩,
-      trivial⟩, trivial⟩
-  · intro p hp
-    exact p.sexp_clean (namesOKB_ok _ h.portNames _ (List.mem_map_of_mem hp))
+  have hcont : cleanL c.contentsSexp → c.sexp.clean := fun hcs =>
+    clean_list _ ⟨by kw, c.name.sexp_clean hn, clean_list _ ⟨by kw, by kw, trivial⟩,
+      clean_list _ ⟨by kw, clean_ident _ h.view, clean_list _ ⟨by kw, by kw, trivial⟩,
+        clean_list _ ⟨by kw, cleanL_map _ _ (fun p hp => p.sexp_clean (namesOKB_ok _ h.portNames _ (List.mem_map_of_mem hp)))⟩,
+        hcs⟩, trivial⟩
+  apply hcont
+  unfold ACell.contentsSexp
+  split
+  · trivial
+  show cleanL [SExp.list (A "contents" :: (c.insts.map AInst.sexp ++ c.nets.map ANet.sexp))]
+  refine ⟨clean_list _ ⟨by kw, cleanL_append _ _ (cleanL_map _ _ ?_) (cleanL_map _ _ ?_)⟩, trivial⟩
   · intro i hi
     have hin := namesOKB_ok _ h.instNames _ (List.mem_map_of_mem hi)
     have hiok := h.insts i hi
     simp only [AInst.okB, Bool.and_eq_true, List.all_eq_true] at hiok
-    obtain ⟨⟨_, hsp⟩, hps⟩ := hiok
+    obtain ⟨⟨⟨_, hsp⟩, hps⟩, _⟩ := hiok
     cases hc : cellAt d i.li i.di with
     | none => rw [hc] at hsp; cases hsp
     | some lc =>
@@ -146,7 +156,12 @@ theorem ALib.sexp_clean (d : ADesign) (hw : WFParts d) (L : Nat) (l : ALib) (hl 
     l.sexp.clean := by
   have hlok := hw.libs L l hl
   have hln : l.name.okB = true := namesOKB_ok _ hw.libNames _ (List.mem_map_of_mem (List.mem_of_getElem? hl))
-  refine clean_list _ ⟨by kw, l.name.sexp_clean hln, clean_list _ ⟨by kw, by kw, trivial⟩,
+  have hkw : (A (if l.external then "external" else "library")).clean := by
+    cases l.external
+    · exact (by kw)
+    · exact (by kw)
+  unfold ALib.sexp
+  refine clean_list _ ⟨hkw, l.name.sexp_clean hln, clean_list _ ⟨by kw, by kw, trivial⟩,
     clean_list _ ⟨by kw, clean_list _ ⟨by kw, trivial⟩, trivial⟩, cleanL_map _ _ ?_⟩
   intro c hc
   obtain ⟨D, hD, rfl⟩ := List.getElem_of_mem hc
